@@ -6,6 +6,7 @@ package main
 import (
 	"context"
 	"fmt"
+	jstoken "github.com/inspirer/textmapper/parsers/js/token"
 	"math/rand"
 	"runtime"
 	"strings"
@@ -126,15 +127,15 @@ func VerifRun(mode string, input []byte) string {
 
 // lookGrammar describes one generated grammar with runtime lookaheads.
 type lookGrammar struct {
-	nalt      int    // alternatives of the guarded statement (2..4): chain L1, !L1&L2, ...
-	nest      int    // 0: plain lookahead nonterminals, 1: they contain a nested (?= ...), 2: two levels of nesting
-	recursive bool   // option recursiveLookaheads
-	optimize  bool   // optimizeTables
-	body      int    // 0: 'x'+   1: ('x' separator ',')+   2: ('x'|'y')+
-	pos       []bool // polarity of the literal of L_i in its own alternative
-	altTerm   []byte // terminator of alternative j
+	nalt       int    // alternatives of the guarded statement (2..4): chain L1, !L1&L2, ...
+	nest       int    // 0: plain lookahead nonterminals, 1: they contain a nested (?= ...), 2: two levels of nesting
+	recursive  bool   // option recursiveLookaheads
+	optimize   bool   // optimizeTables
+	body       int    // 0: 'x'+   1: ('x' separator ',')+   2: ('x'|'y')+
+	pos        []bool // polarity of the literal of L_i in its own alternative
+	altTerm    []byte // terminator of alternative j
 	lT, lU, lV []byte // terminators used by L_i (see tm())
-	valid     []byte // terminators for which the statement parses
+	valid      []byte // terminators for which the statement parses
 }
 
 var lookTerms = []byte{';', '!', '?', '#'}
@@ -528,6 +529,9 @@ func jsTokenOffsets(text string) []int {
 		if int(t) == 0 { // EOI
 			break
 		}
+		if t == jstoken.MULTILINECOMMENT || t == jstoken.SINGLELINECOMMENT || t == jstoken.INVALID_TOKEN {
+			continue // reported, never shifted
+		}
 		s, _ := l.Pos()
 		offs = append(offs, s)
 		if len(offs) > 1<<20 {
@@ -605,6 +609,19 @@ func jsSentence(rng *rand.Rand) string {
 		}
 	}
 	s := sb.String()
+	if rng.Intn(2) == 0 {
+		// comments (reported through the token stream's pending list) between statements
+		parts := strings.SplitAfter(s, ";")
+		for i := range parts {
+			switch rng.Intn(24) {
+			case 0:
+				parts[i] += " /* c */ "
+			case 1:
+				parts[i] += " // c\n"
+			}
+		}
+		s = strings.Join(parts, "")
+	}
 	if rng.Intn(10) == 0 {
 		b := []byte(s)
 		b[rng.Intn(len(b))] = ")(;=,/"[rng.Intn(6)]
